@@ -37,6 +37,12 @@ def run(ck):
     # ... and the session position those coordinates are applied to: base and moves of every `position` command (C07's I9)
     from .c07 import i9_position
     ck.run_rule(i9_position)
+    # the en passant target of the successor is set from the move's double-push flag: its definition (C20's L13)
+    from . import c20 as _c20
+    ck.run_rule(_c20.rule_double_push_flag)
+    # the counters of the successor live in Clock: their width (C11's F7; a narrower counter stops counting in long games)
+    from . import c11 as _c11
+    ck.run_rule(_c11.f7_counter_types)
 
 
 def collect_sets(ck, ctx):
